@@ -13,7 +13,7 @@ ID = "C01"
 RULE = ("G-struct file sets (1-10 ranks, arbitrary event mixes incl. metadata/flow/instant/counter entries, events without "
         "cat/dur, Trace span with string pid, args None / non-dict, stream as int/str/garbage, shuffled order, .json/.json.gz, "
         "epoch offsets 0..1.7e15, int / dyadic / decimal / int-as-float timestamps, int ts + fractional dur, correlation ids up "
-        "to 2^31, >127 and >32767 events) x {parse-only, full load} x {multiprocessing on/off} x include_last_profiler_step; "
+        "to 2^31, >127 and >32767 events) x {parse-only, full load} x {multiprocessing on/off} x include_last_profiler_step x ParserConfig {default, minimum, complete, parse_all_args, selected keys, communication args, reordered}; "
         "oracle = independent recomputation from json.loads of the same files. Non-trivial: >= 2 ranks, or fractional "
         "timestamps, or >= 1 non-complete entry dropped. Distinct = distinct hash of (files, configuration).")
 ASSUMPTIONS = [
@@ -48,6 +48,7 @@ def gen_case(rnd, tier: str, i: Any) -> Dict[str, Any]:
         "inc_last": rnd.random() < 0.3,
         "no_round": tier == "thorough" and rnd.random() < 0.05,
         "mem_prof": rnd.random() < 0.5,
+        "parser": rnd.choice(drv.PARSER_VARIANTS),
     }
     return case
 
@@ -91,6 +92,7 @@ def _check(case, cfg, files_raw, paths, d, res, ctx) -> None:  # noqa: ANN001
     res.counters["fractional_files"] += sum(frac.values())
     res.counters["entries_dropped_expected"] += n_dropped
     res.counters[f"mode_{cfg['mode']}"] += 1
+    res.counters[f"parser_{cfg.get('parser', 'default')}"] += 1
     if len(models) > 1 and cfg["mode"] == "load":
         res.counters["multi_rank_loads"] += 1
         if cfg["mp"]:
@@ -103,7 +105,7 @@ def _check(case, cfg, files_raw, paths, d, res, ctx) -> None:  # noqa: ANN001
                   "first_events": next(iter(files_raw.values()))["traceEvents"][:3]}
 
     with core.env(HTA_DISABLE_NS_ROUNDING="1" if cfg["no_round"] else None):
-        t = drv.new_trace(d, paths if "sample_dir" in case else None)
+        t = drv.new_trace(d, paths if "sample_dir" in case else None, parser=cfg.get("parser"))
         if cfg["mode"] == "parse":
             ok, _ = drv.guard(res, "parse_traces", t.parse_traces, use_multiprocessing=cfg["mp"], use_memory_profiling=cfg["mem_prof"])
         else:
